@@ -564,7 +564,9 @@ pub fn run(args: &Args) -> Report {
         }));
     }
     for h in handles {
-        let _ = h.join();
+        if h.join().is_err() {
+            report.inconclusive.push("HARNESS-PANIC: a fault worker thread panicked (its results are lost)".into());
+        }
     }
     REAPER.wait();
     let m = Arc::try_unwrap(merged).ok().unwrap().into_inner();
